@@ -306,7 +306,7 @@ class Interp:
                 if isinstance(kd, V) and kd.t == "reserved-kind":
                     return V("tok", V("reserved-token-of", kd.a[1]), args[1])
                 raise Unanalysable(line, "kind->token table %s applied to %r" % (segs[0], kd))
-            if segs[-1] == "remove_dollars" and len(args) == 1:
+            if len(segs) == 2 and segs[0] == "DollarlessTerminalName" and segs[-1] == getattr(self.tf, "dollarless_ctor", None) and len(args) == 1:
                 return V("dollarless", args[0])
             if len(segs) == 1 and segs[0] in self.tf.fns and segs[0][:1].islower():
                 # a free helper function of the tokenizer file (e.g. a character predicate): evaluate its body
@@ -466,7 +466,7 @@ class Interp:
             raise Unanalysable(line, "unknown char method %s" % name)
         if isinstance(recv, V) and recv.t == "str" and name == "len" and not args:
             return K(len(recv.a[0].encode("utf-8")))
-        if isinstance(recv, V) and recv.t in ("text", "dollarless") and name in ("to_string", "to_owned", "raw", "clone", "as_str", "as_ref"):
+        if isinstance(recv, V) and recv.t in ("text", "dollarless") and name in ("to_string", "to_owned", "clone", "as_str", "as_ref", getattr(self.tf, "dollarless_raw", None)):
             return recv
         if isinstance(recv, V) and recv.t == "nz-new" and name == "unwrap":
             a = recv.a[0]
